@@ -40,6 +40,7 @@ def accessorsHandler : Handler
   | "acc-debsrc", n :: ts => do
       let (files, _) ← readHexList (← n.toNat?) ts
       pure (showRes out (debianSource files))
+  | "acc-srcname", [p, s] => do pure (out (sourceName (← hx p) (← hx s)))
   | "acc-srcpkg", [p, s] => do pure (out (sourcePackage (← hx p) (← hx s)))
   | "acc-best", n :: ts => do
       let (a, ts) ← readHashes (Bytes.ofString "sha256") (← n.toNat?) ts
